@@ -2095,6 +2095,70 @@ def _bare_keep_ptr(t):
     return " ".join((t or "").replace("volatile", " ").split())
 
 
+_VARINT_ALLOWED = {
+    ">": {0x7F}, ">=": {0x80}, "<": {0x80}, "<=": {0x7F}, "==": {0}, "!=": {0},
+    "|": {0x80}, "|=": {0x80}, "&": {0x7F, 0x80, 1}, "&=": {0x7F},
+    ">>": {7, 1}, ">>=": {7}, "<<": {1, 7}, "<<=": {7}, "+=": {7}, "+": {1, 7}, "-": {1},
+}
+
+
+def rule_varint_constants(out, tier):
+    rid = "VC1"
+    out.rule(rid, "coded_stream.h: every integer literal the varint / zig-zag routines combine with a value is the one the encoding defines — groups of 7 bits (mask 0x7F, "
+                  "shift 7), continuation bit 0x80, zig-zag by one bit (sign shifts 31/63 in the ZigZag routines only)", 12)
+    roots, rc, err = dump(out.repo, "coded_stream.h")
+    rel = BIN + "/coded_stream.h"
+    if rc != 0 or not roots:
+        out.undecided(rid, "clang/coded_stream.h", rel, "clang could not parse the header: " + err[-300:])
+        return
+    for r in roots:
+        annotate_lines(r)
+    seen = set()
+    n = 0
+    counts = {}
+    for r in roots:
+        for fn in walk(r):
+            name = fn.get("name") or ""
+            if fn.get("kind") not in ("FunctionDecl", "CXXMethodDecl") or body_of(fn) is None or not re.search(r"VarInt|ZigZag", name) or (name, fn.get("_line")) in seen:
+                continue
+            seen.add((name, fn.get("_line")))
+            for x in walk(body_of(fn)):
+                if x.get("kind") not in ("BinaryOperator", "CompoundAssignOperator"):
+                    continue
+                op = x.get("opcode")
+                if op not in _VARINT_ALLOWED:
+                    continue
+                ops = [c for c in (x.get("inner") or []) if isinstance(c, dict)]
+                if len(ops) != 2:
+                    continue
+
+                def lit(o):
+                    while o.get("kind") in ("ImplicitCastExpr", "ParenExpr", "CXXStaticCastExpr", "ConstantExpr") and o.get("inner"):
+                        o = [c for c in o["inner"] if isinstance(c, dict)][-1]
+                    if o.get("kind") == "IntegerLiteral":
+                        try:
+                            return int(o.get("value"))
+                        except (TypeError, ValueError):
+                            return None
+                    return None
+                lv, rv = lit(ops[0]), lit(ops[1])
+                if (lv is None) == (rv is None):
+                    continue  # no literal, or a constant expression
+                v = rv if rv is not None else lv
+                allowed = set(_VARINT_ALLOWED[op])
+                if "ZigZag" in name and op in (">>", ">>="):
+                    allowed |= {31, 63}
+                n += 1
+                k = "%s/%s %s" % (name, op, hex(v) if v > 9 else v)
+                counts[k] = counts.get(k, 0) + 1
+                key = k if counts[k] == 1 else "%s#%d" % (k, counts[k])
+                out.check(v in allowed, rid, key, "%s:%d" % (rel, x.get("_line", 0)), "a constant of the encoding",
+                          "`%s %s` in %s: the varint encoding works in groups of 7 bits with 0x80 as the continuation bit (zig-zag: one bit) — with this constant every value "
+                          "that needs more than one byte is written or read as a different number" % (op, hex(v) if v > 9 else v, name))
+    if n == 0:
+        out.undecided(rid, "anchor/varint routines", rel, "no literal found in the varint routines")
+
+
 def _nlohmann_include():
     for d in ("/usr/include", "/usr/local/include", "/root/miniconda/include", "/opt/conda/include"):
         if os.path.exists(os.path.join(d, "nlohmann", "json.hpp")):
@@ -2235,6 +2299,97 @@ def rule_ndjson_header(out, tier):
                   "ReadAndValidateHeader can complete without the whole parsed expected schema having been found equal to the whole schema of the stream")
 
 
+def rule_ndjson_lookahead(out, tier):
+    rid = "NL1"
+    out.rule(rid, "detail/ndjson/serializers.h ReadProtocolValue (analysed when nlohmann/json.hpp is installed), on every path: `true` is returned only after the entry of the "
+                  "line under the step's own name was converted into `value`, and with the look-ahead line consumed (reset) if that is where it came from; `false` is returned "
+                  "only for a step that is not required, keeps a look-ahead line that was not used, and stores a freshly parsed line that belongs to a later step", 0)
+    roots, rc, err = dump_ndjson(out.repo, "serializers.h")
+    rel = INC + "/detail/ndjson/serializers.h"
+    if roots is None:
+        out.stats["NL1_not_analysed"] = err
+        return
+    if rc != 0 or not roots:
+        out.undecided(rid, "clang/ndjson/serializers.h", rel, "clang could not parse the header: " + err[-300:])
+        return
+    for r in roots:
+        annotate_lines(r)
+    fn = dict(free_functions(roots)).get("ReadProtocolValue")
+    if fn is None:
+        out.undecided(rid, "ReadProtocolValue", rel, "not found")
+        return
+    ps = params_of(fn)
+    names = [p.get("name") for p in ps]
+    # parameters by type: the look-ahead is the std::optional<json>&, the name the std::string const&, the flag the bool
+    look = next((p.get("name") for p in ps if "optional" in (p.get("type") or {}).get("qualType", "")), None)
+    step = next((p.get("name") for p in ps if "const std::string" in (p.get("type") or {}).get("qualType", "") or "std::string const" in (p.get("type") or {}).get("qualType", "")), None)
+    req = next((p.get("name") for p in ps if (p.get("type") or {}).get("qualType", "") == "bool"), None)
+    val = names[-1] if names else None
+    posn = "%s:%d" % (rel, fn.get("_line", 0))
+    if not (look and step and req and val):
+        out.undecided(rid, "ReadProtocolValue/parameters", posn, "parameters not recognised: %s" % names)
+        return
+    cp = CxxPaths({})
+    paths = cp.paths(fn)
+    if cp.overflow or not paths:
+        out.undecided(rid, "ReadProtocolValue/paths", posn, "cannot enumerate the paths")
+        return
+    bad = {"delivered": None, "consumed": None, "required": None, "kept": None, "stored": None}
+    for p in paths:
+        calls = [e[1] for e in p.events if e[0] == "call"]
+        had_look = any(l == "operator bool()" and v for l, v in p.lits)
+        looked_up = any(re.match(r"(at|operator\[\]|find|contains)\(%s\)" % re.escape(step), c) for c in calls)
+        converted = any(re.search(r"\(%s\)$" % re.escape(val), c) and not c.startswith(("at(", "parse(")) for c in calls)
+        parsed = any(c.startswith("parse(") for c in calls)
+        reset = any(c == "reset()" for c in calls)
+        stored = any(c.startswith("emplace(") or c.startswith("operator=(") for c in calls) or any(e[0] == "assign" and e[1].startswith(look) for e in p.events)
+        if p.outcome == "return" and p.ret == "true":
+            if not (looked_up and converted):
+                bad["delivered"] = p
+            if had_look and not reset:
+                bad["consumed"] = p
+        if p.outcome == "return" and p.ret == "false":
+            if any(l == req and v for l, v in p.lits) or not any(l == req for l, v in p.lits):
+                bad["required"] = p
+            if had_look and reset:
+                bad["kept"] = p
+            if parsed and not stored:
+                bad["stored"] = p
+    msgs = {
+        "delivered": ("true only after the step's own entry was converted into value", "a path returns true without having looked the step's name up in the line and converted that entry into `value`"),
+        "consumed": ("a used look-ahead line is reset", "a path delivers the value from the look-ahead line and leaves the line in place: the next call delivers the same line again"),
+        "required": ("false only for a step that is not required", "a path returns false although the step is required (or without consulting `required`): a missing or misplaced step reads as an absent optional step / the end of a stream"),
+        "kept": ("an unused look-ahead line is kept", "a path returns false — the line belongs to a later step — but has reset the look-ahead: that line is lost"),
+        "stored": ("a parsed line of a later step is stored", "a path parses a new line, finds it belongs to a later step and returns false without storing it as look-ahead: the line is lost"),
+    }
+    for k, (okm, badm) in msgs.items():
+        out.check(bad[k] is None, rid, "ReadProtocolValue/" + k, posn, okm, badm)
+    # a handler that can catch more than "the key is not there" (a parse error, any json exception, catch-all) ends in a throw:
+    # a line cut off in the middle must not read as a missing optional step
+    for header in ("serializers.h", "header.h"):
+        hroots, hrc, _ = dump_ndjson(out.repo, header)
+        if not hroots or hrc != 0:
+            continue
+        k = 0
+        for r in hroots:
+            annotate_lines(r)
+            for h in walk(r):
+                if h.get("kind") != "CXXCatchStmt":
+                    continue
+                inner = [c for c in h.get("inner") or [] if isinstance(c, dict)]
+                etype = next(((c.get("type") or {}).get("qualType", "") for c in inner if c.get("kind") == "VarDecl"), "...")
+                body = next((c for c in inner if c.get("kind") == "CompoundStmt"), None)
+                if "out_of_range" in etype:
+                    continue
+                k += 1
+                stmts = [c for c in (body.get("inner") or []) if isinstance(c, dict)] if body else []
+                last = stmts[-1] if stmts else {}
+                while last.get("kind") in ("ExprWithCleanups",) and last.get("inner"):
+                    last = [c for c in last["inner"] if isinstance(c, dict)][-1]
+                out.check(last.get("kind") == "CXXThrowExpr", rid, "%s/catch %s#%d" % (header, etype[:40], k), "%s/detail/ndjson/%s:%d" % (INC, header, h.get("_line", 0)),
+                          "the handler ends in a throw", "a handler for `%s` completes normally: malformed or truncated JSON is turned into a normal result" % etype)
+
+
 def rule_no_swallowed_eof(out, tier):
     rid = "CB6"
     out.rule(rid, "binary runtime headers: the end-of-stream exception propagates — no routine of coded_stream.h, serializers.h, header.h or reader_writer.h catches "
@@ -2280,10 +2435,11 @@ def rule_no_swallowed_eof(out, tier):
 
 
 RULES = {
-    "C16": [rule_coded_stream_bounds, rule_blocks, rule_fill_loops_end, rule_stream_reads_counted, rule_no_swallowed_eof],
-    "C01": [rule_coded_stream_bounds, rule_serializer_twins, rule_output_order, rule_reader_overwrites, rule_trivial_trait_set, rule_blocks, rule_zigzag_width, rule_integer_dispatch, rule_shift_in_destination_type],
+    "C16": [rule_coded_stream_bounds, rule_blocks, rule_fill_loops_end, rule_stream_reads_counted, rule_no_swallowed_eof, rule_ndjson_lookahead],
+    "C01": [rule_coded_stream_bounds, rule_serializer_twins, rule_output_order, rule_reader_overwrites, rule_trivial_trait_set, rule_blocks, rule_zigzag_width, rule_integer_dispatch, rule_shift_in_destination_type, rule_varint_constants],
     "C15": [rule_cxx_header, rule_ndjson_header],
+    "C02": [rule_ndjson_lookahead],
     "C04": [rule_cxx_header, rule_output_order, rule_ndjson_header],
-    "C03": [rule_output_order, rule_reader_overwrites, rule_integer_dispatch, rule_shift_in_destination_type, rule_zigzag_width],
+    "C03": [rule_output_order, rule_reader_overwrites, rule_integer_dispatch, rule_shift_in_destination_type, rule_zigzag_width, rule_varint_constants],
     "C17": [rule_reader_overwrites, rule_blocks, rule_trivial_trait_set, rule_output_order, rule_pointer_offset_units],
 }
